@@ -5,7 +5,7 @@ from harness.props import base
 PROP = {
     "id": "C04",
     "quick_n": 360,
-    "thorough_n": 6000,
+    "thorough_n": 3600,
     "rule": "one program = tree spec (every primitive in every child/flow position, sparse "
             "containers with non-Count contents, named and unnamed quantities), a reachable state "
             "(fills incl. nan/+-inf data, +, *, copy; often left empty), then toJson (strictness "
